@@ -90,23 +90,26 @@ fn aread_with(ctor: &str, w: &[&str]) -> Option<String> {
 }
 
 #[derive(Clone, Copy, PartialEq)]
-enum WAct { Write(usize), Sync, Poll, Drop }
+enum WAct { Write(usize), Sync, Poll, Drop, SetMax(u32) }
 
 /// `awrite <maxlen> <vals> <script> <acts>`; acts: `w<i>` call `write(vals[i])` and poll once,
 /// `s` call `sync()` and poll once, `p` poll the pending future, `d` drop it.  `w` / `s` while a
 /// future is pending drop that future first (it borrows the writer).
-pub fn awrite(w: &[&str]) -> Option<String> { awrite_with("n", w) }
-pub fn awriteb(w: &[&str]) -> Option<String> { awrite_with(w.first()?, &w[1..]) }
-fn awrite_with(ctor: &str, w: &[&str]) -> Option<String> {
+pub fn awrite(w: &[&str]) -> Option<String> { awrite_with("n", 0, w) }
+pub fn awriteb(w: &[&str]) -> Option<String> { awrite_with(w.first()?, 0, &w[1..]) }
+/// `awritef <flush mode> …`: the sink's `poll_flush` answers Pending / Ok alternately (1), an error (2), Pending for ever (3)
+pub fn awritef(w: &[&str]) -> Option<String> { awrite_with("n", w.first()?.parse::<u8>().ok()?, &w[1..]) }
+fn awrite_with(ctor: &str, flush_mode: u8, w: &[&str]) -> Option<String> {
     let [ml, vs, sc, acts] = w else { return None };
     let (ml, vs, sc) = (ml.parse::<u32>().ok()?, parse_vals(vs)?, parse_script(sc)?);
     let acts: Vec<WAct> = split_list(acts).into_iter().map(|a| match a {
         "s" => Some(WAct::Sync),
         "p" => Some(WAct::Poll),
         "d" => Some(WAct::Drop),
+        _ if a.starts_with('m') => a[1..].parse::<u32>().ok().map(WAct::SetMax),
         _ => a.strip_prefix('w').and_then(|k| k.parse::<usize>().ok()).filter(|k| *k < vs.len()).map(WAct::Write)
     }).collect::<Option<_>>()?;
-    let mut wr = match ctor_buf(ctor)? { None => AsyncWriter::new(Snk::new(sc)), Some(b) => AsyncWriter::with_buffer(Snk::new(sc), b) };
+    let mut wr = match ctor_buf(ctor)? { None => AsyncWriter::new(Snk::with_flush(sc, flush_mode)), Some(b) => AsyncWriter::with_buffer(Snk::with_flush(sc, flush_mode), b) };
     wr.set_max_len(ml);
     let mut cx = Context::from_waker(Waker::noop());
     let mut out: Vec<String> = Vec::new();
@@ -114,6 +117,8 @@ fn awrite_with(ctor: &str, w: &[&str]) -> Option<String> {
     while i < acts.len() {
         let mut fut: Pin<Box<dyn Future<Output = String> + '_>> = match acts[i] {
             WAct::Poll | WAct::Drop => { out.push("-".into()); i += 1; continue }
+            // `set_max_len(&mut self)`: no future can be alive (the previous one was dropped at the end of the last iteration)
+            WAct::SetMax(k) => { wr.set_max_len(k); out.push("-".into()); i += 1; continue }
             WAct::Write(k) => {
                 let (wr, v) = (&mut wr, &vs[k]);
                 Box::pin(async move { format!("w:{}", show_write(&wr.write(v).await)) })
@@ -133,7 +138,7 @@ fn awrite_with(ctor: &str, w: &[&str]) -> Option<String> {
                     match acts[i] {
                         WAct::Poll => { i += 1 }
                         WAct::Drop => { out.push("-".into()); i += 1; break }
-                        WAct::Write(_) | WAct::Sync => break
+                        WAct::Write(_) | WAct::Sync | WAct::SetMax(_) => break
                     }
                 }
             }
